@@ -90,6 +90,7 @@ def C03(F, rep, tier, cx):
     """L3 bytes emitted == calculateObjectSize(); L4 header bytes == calculateHeaderSize(); L5 pad set and pairing; L6 lengths derived
     from containers; L8 well-founded size function; B2 write sources bounded; L1 decoding consumes exactly what was emitted"""
     run_layout(F, rep, write_rules=('L3', 'L4', 'L5', 'L6', 'L8', 'B2'), roundtrip=True)
+    RF.R5(F, rep, cx.FL)   # the padding (and every other byte) an object emits is stored by the stream: the put position moves only over stored bytes
 
 
 FORMAT_LOGCONTAINER = [('signature', 4), ('headerSize', 2), ('headerVersion', 2), ('objectSize', 4), ('objectType', 4),
@@ -154,6 +155,7 @@ def C04(F, rep, tier, cx):
     # "exactly the objects written": no worker gives up early (a timed wait that is treated as a wake-up, a worker stopped by close())
     RP.K2(F, rep, cx.R)
     RF.K12(F, rep, cx.R, cx.FL)
+    RF.K11(F, rep, cx.R, cx.FL)   # ... nor decides to stop on a snapshot of the other side's position
 
 
 def stat_size(F, rep):
@@ -238,6 +240,10 @@ def C08(F, rep, tier, cx):
     RP.K5(F, rep, cx.R, cx.FL, ('BLF',), 'library-exception')
     run_layout(F, rep, read_rules=('E6',), extra_classes=(LOGCONT,) if LOGCONT not in object_classes_cached(F) else ())
     RF.E5(F, rep, cx.R)
+    # the two decoders that work on the compressed file itself seek only over alignment padding: any other seek behind a (possibly short) read
+    # clears eofbit of the std::fstream before the state is looked at, and the signature search that leaves only through eof() spins
+    run_layout(F, rep, read_rules=('L7',), only=[LOGCONT, FILESTAT])
+    rep.obs = [o for o in rep.obs if o['rule'] != 'L7' or '|skip@' in o['key']]
     RF.O3(F, rep, cx.R, cx.FL)   # a file cut inside its header still gets workers that declare the end (open|workers-started); close() returns
     rep.obs = [o for o in rep.obs if o['rule'] != 'O3' or o['key'].startswith('O3|open|workers') or o['key'].startswith('O3|join')]
 
@@ -273,6 +279,9 @@ def C10(F, rep, tier, cx):
     RP.K6(F, rep, cx.R, cx.FL, ws)        # a worker that stopped on a corrupt object must not leave close() waiting for the other one
     RF.O5(F, rep)                         # no cached pointer into storage that is released concurrently
     RF.E1(F, rep, cx.FL)                  # a short read is noticed before its bytes are used (otherwise the signature search spins on a dead stream)
+    RF.F3F4(F, rep, cx.FL)                # the compression thread reads into a buffer that was sized for exactly that request
+    rep.obs = [o for o in rep.obs if o['rule'] != 'F3']
+    rep.counts.pop('F3', None)
 
 
 def C11(F, rep, tier, cx):
